@@ -114,7 +114,7 @@ func (c *testClient) Run() error {
 	c.rec.RunEnter = h.s.StepSeq()
 	h.mu.Unlock()
 	if c.rec.selfExit {
-		time.Sleep(500 * time.Millisecond)
+		time.Sleep(500*time.Millisecond + time.Duration(c.rec.N)*time.Millisecond) // never two harness timers at one instant
 		h.mu.Lock()
 		c.rec.RunExit = max(h.s.StepSeq(), 1)
 		h.mu.Unlock()
@@ -181,7 +181,10 @@ func (h *mgrHarness) construct(nc *nats.Conn, cfg TestNode) client.Client {
 		rec.KidIDs = append(rec.KidIDs, k.ID)
 	}
 	sort.Strings(rec.KidIDs)
-	rec.stopDelay = time.Duration(mix(h.s.Seed, uint64(rec.N))%5) * time.Second
+	rec.stopDelay = time.Duration(mix(h.s.Seed, uint64(rec.N))%5)*time.Second + time.Duration(rec.N)*time.Millisecond
+	if rec.stopDelay < time.Second {
+		rec.stopDelay = 0
+	}
 	// a client whose Run gives up by itself (fenced off while finding F-C07-client-exit-not-restarted is open); only the
 	// first instance of a placement fails, a restarted one works
 	first := true
